@@ -71,12 +71,17 @@ fn queries(sh: &Shadow, rng: &mut Rng, ops: &mut Vec<String>, count: usize) {
 }
 
 pub fn matrices(rec: &mut Recorder, rng: &mut Rng, thorough: bool) {
-    let widths: Vec<usize> = vec![1, 2, 3, 7, 8, 31, 62, 63, 64, 65, 66, 100, 126, 127, 128, 129, 130, 191, 192, 193, 200, 257];
+    let widths: Vec<usize> = vec![1, 2, 3, 7, 8, 31, 62, 63, 64, 65, 66, 100, 126, 127, 128, 129, 130, 140, 191, 192, 193, 200, 257, 270];
     let n = if thorough { 1500 } else { 220 };
     for it in 0..n {
         let w = if it < 2 * widths.len() { widths[it % widths.len()] } else if rng.chance(1, 2) { *rng.pick(&widths) } else { rng.range(1, if thorough { 300 } else { 140 }) as usize };
         let h = w + match rng.below(4) { 0 => 0, 1 => 1, _ => rng.below(20) as usize };
-        let hint = match rng.below(8) { 0 => 0, 1 => 1, 2 => 63.min(w), 3 => 64.min(w), 4 => 65.min(w), 5 => w, _ => rng.below(w as u64 + 1) as usize };
+        // hints just below / at a multiple of 64 (with sparse columns left to freeze): the dense tail then
+        // grows across a word boundary (64->65, 128->129, 192->193, 256->257 columns) and is re-spaced
+        let top = if w >= 2 { (w - 1) / 64 * 64 } else { 0 };
+        let hint = match rng.below(11) { 0 => 0, 1 => 1, 2 => 63.min(w), 3 => 64.min(w), 4 => 65.min(w), 5 => w,
+            6 => top, 7 => top.saturating_sub(1), 8 => if top >= 128 && rng.chance(1, 2) { top - 64 } else { top },
+            _ => rng.below(w as u64 + 1) as usize };
         let mut sh = Shadow { h, w, dense: hint, bits: vec![vec![false; w]; h], indexed: false, col_valid: vec![true; w], tainted: vec![None; h] };
         let mut ops: Vec<String> = vec![];
         // ---- construction
@@ -121,9 +126,17 @@ pub fn matrices(rec: &mut Recorder, rng: &mut Rng, thorough: bool) {
                         }
                     }
                     4 => if fd >= 1 {
-                        // freeze the last sparse column
-                        sh.dense += 1;
-                        ops.push(format!("fr:{}", fd - 1));
+                        // freeze the last sparse column (sometimes a burst, to cross a word boundary of the dense tail)
+                        let burst = if rng.chance(1, 3) { rng.range(2, 4) as usize } else { 1 };
+                        for b in 0..burst.min(fd) {
+                            sh.dense += 1;
+                            ops.push(format!("fr:{}", fd - 1 - b));
+                            if sh.dense % 64 == 1 && sh.dense > 64 { rec.count("freeze_crosses_word_boundary_ge128"); }
+                            else if sh.dense % 64 == 1 { rec.count("freeze_crosses_word_boundary"); }
+                            // the dense tail was re-spaced: read the whole tail of *every* row
+                            if sh.dense % 64 == 1 { let nfd = sh.first_dense(); for r in 0..sh.h { if sh.defined(r, nfd) { ops.push(format!("sro:{r}:{nfd}")); } } }
+                            if b + 1 < burst.min(fd) { queries(&sh, rng, &mut ops, 1); }
+                        }
                     }
                     5 => if sh.dense > 0 { let (r, c) = (rng.below(h as u64) as usize, fd + rng.below(sh.dense as u64) as usize); let v = rng.chance(1, 2); sh.bits[r][c] = v; ops.push(format!("s:{r}:{c}:{}", v as u8)); }
                     _ => {}
